@@ -1,12 +1,13 @@
 (* mode_langc06r.ml — nsmodel mode for the C06 round-2 tie (trusted glue):
      nsmodel langc06r <in> <out>   reads the `ast` lines the harness printed (same format as
                                    mode_lang.ml) and prints, per case,
-       rw rules <0|1> wf <0|1> ids <0|1> calls <0|1> fids <0|1> prange <0|1> idxt <0|1> lexical <0|1>
+       rw rules <0|1> wf <0|1> ids <0|1> calls <0|1> fids <0|1> prange <0|1> idxt <0|1> lexical <0|1> nofn <0|1>
      rules   = StaticRules.check p = []          (the C09 model of the resolver's static rules)
      wf      = WfStatic.wf_static p              (hypothesis of C06_wf_static_never_panics_structural)
      ids     = RulesWf.ids_consistent p = calls && fids && prange, on the REAL ids of the dump
      idxt    = RulesWf.idx_targets p             (parser-level shape)
      lexical = LexResolve.lexical p              (C04's binding relation; implies ids)
+     nofn    = LexResolve.nofn p                 (no user-defined function anywhere)
    Theorem C06_rules_accept_implies_wf_static: rules && ids && idxt ==> wf.
    The helpers and the AST reader are a copy of mode_langc06.ml's (each Model*.ml has its own
    copy of the extracted datatypes). *)
@@ -128,9 +129,9 @@ let langc06r_mode inp outp =
     | "ast" :: toks ->
         (try
            let p = parse_program (Array.of_list toks) in
-           Printf.fprintf oc "rw rules %s wf %s ids %s calls %s fids %s prange %s idxt %s lexical %s\n"
+           Printf.fprintf oc "rw rules %s wf %s ids %s calls %s fids %s prange %s idxt %s lexical %s nofn %s\n"
              (b01 (check p = [])) (b01 (wf_static p)) (b01 (ids_consistent p)) (b01 (calls_lexical p))
-             (b01 (fids_unique p)) (b01 (params_in_range p)) (b01 (idx_targets p)) (b01 (lexical p))
+             (b01 (fids_unique p)) (b01 (params_in_range p)) (b01 (idx_targets p)) (b01 (lexical p)) (b01 (nofn p))
          with Bad m -> Printf.fprintf oc "badast %s\n" m)
     | "end" :: id :: _ -> Printf.fprintf oc "end %s\n" id
     | _ -> ()) (read_lines inp);
